@@ -108,7 +108,7 @@ func runShard(lane laneSpec, job proto.Job, maxCrashes int) shardResult {
 		special := ""
 		for {
 			line, err := rd.ReadBytes('\n')
-			if len(line) > 2 {
+			if len(line) > 2 && line[1] == ' ' {
 				switch line[0] {
 				case 'B':
 					lastB, _ = strconv.Atoi(strings.TrimSpace(string(line[2:])))
@@ -122,11 +122,13 @@ func runShard(lane laneSpec, job proto.Job, maxCrashes int) shardResult {
 					} else {
 						res.harness = append(res.harness, "bad V line: "+e.Error())
 					}
-				case 'S':
+				case 'S', 'P':
 					var s proto.Stats
 					if e := json.Unmarshal(line[2:], &s); e == nil {
 						res.stats = append(res.stats, s)
-						gotS = true
+						if line[0] == 'S' {
+							gotS = true
+						}
 					} else {
 						res.harness = append(res.harness, "bad S line: "+e.Error())
 					}
@@ -225,7 +227,7 @@ func (s *server) call(rq *proto.Request) (rs proto.Response, died string, stderr
 	special := ""
 	for {
 		line, err := s.out.ReadBytes('\n')
-		if len(line) > 2 {
+		if len(line) > 2 && line[1] == ' ' {
 			switch line[0] {
 			case 'R':
 				if e := json.Unmarshal(line[2:], &rs); e != nil {
@@ -275,21 +277,21 @@ func (j *judgeClient) close() { j.srv.close(); j.srv = nil }
 // ---------------------------------------------------------------- replay files
 
 type Replay struct {
-	Property string        `json:"property"`
-	Lane     string        `json:"lane"`
-	Tier     string        `json:"tier"`
-	Seed     uint64        `json:"seed"`
-	Idx      int           `json:"idx"`
-	Class    string        `json:"class"`
-	Detail   string        `json:"detail"`
-	Case     *props.Case   `json:"case"`
-	Scheds   []props.Sched `json:"scheds"`
-	Hashes   []uint64      `json:"log_hashes,omitempty"`
-	Minimised bool         `json:"minimised"`
-	Original *props.Case   `json:"original_case,omitempty"`
-	Obs      []proto.ObsSummary `json:"observations,omitempty"`
-	Stderr   string        `json:"stderr,omitempty"`
-	Note     string        `json:"note,omitempty"`
+	Property  string             `json:"property"`
+	Lane      string             `json:"lane"`
+	Tier      string             `json:"tier"`
+	Seed      uint64             `json:"seed"`
+	Idx       int                `json:"idx"`
+	Class     string             `json:"class"`
+	Detail    string             `json:"detail"`
+	Case      *props.Case        `json:"case"`
+	Scheds    []props.Sched      `json:"scheds"`
+	Hashes    []uint64           `json:"log_hashes,omitempty"`
+	Minimised bool               `json:"minimised"`
+	Original  *props.Case        `json:"original_case,omitempty"`
+	Obs       []proto.ObsSummary `json:"observations,omitempty"`
+	Stderr    string             `json:"stderr,omitempty"`
+	Note      string             `json:"note,omitempty"`
 }
 
 // ---------------------------------------------------------------- known findings
@@ -342,15 +344,15 @@ func matchKnown(ks []Known, prop, class, lane string, c *props.Case) *Known {
 // ---------------------------------------------------------------- minimisation
 
 type minimiser struct {
-	j      *judgeClient
-	prop   string
-	tier   string
-	seed   uint64
-	idx    int
-	class  string
-	budget int
+	j        *judgeClient
+	prop     string
+	tier     string
+	seed     uint64
+	idx      int
+	class    string
+	budget   int
 	deadline time.Time
-	textOK bool
+	textOK   bool
 }
 
 type attempt struct {
@@ -711,7 +713,7 @@ func doCheck(prop, tier string, seed uint64, nworkers, maxSec int, noMin bool) i
 				}
 			}
 		}
-		if !s.Complete {
+		if s.Final && !s.Complete {
 			complete = false
 		}
 	}
@@ -885,32 +887,32 @@ func doCheck(prop, tier string, seed uint64, nworkers, maxSec int, noMin bool) i
 		laneInfo[k] = map[string]int{"cases": v.Cases, "runs": v.Runs}
 	}
 	ev.Coverage = map[string]interface{}{
-		"evaluations":           tot.Runs,
-		"distinct_nontrivial":   distinctNT,
-		"rule":                  ruleFor(prop),
-		"samples":               samples,
-		"cases":                 tot.Cases,
-		"distinct_cases":        distinctCases,
+		"evaluations":            tot.Runs,
+		"distinct_nontrivial":    distinctNT,
+		"rule":                   ruleFor(prop),
+		"samples":                samples,
+		"cases":                  tot.Cases,
+		"distinct_cases":         distinctCases,
 		"distinct_interleavings": distinctIL,
-		"distinct_outcomes":     distinctOut,
-		"scheduler_steps":       tot.Steps,
-		"io_operations":         tot.IOOps,
-		"simulated_time_note":   "go.sh has no clocks or timers: simulated time is reported as scheduler steps and reader/writer operations",
-		"runs_per_hour":         int64(runsPerHour),
-		"seeds_per_hour":        int64(runsPerHour),
-		"fault_kinds_fired":     tot.Faults,
-		"probes":                tot.Probes,
-		"probes_stuck_at_zero":  zeroProbes,
-		"policies":              tot.Policies,
-		"lanes":                 laneInfo,
-		"worker_deaths":         len(all.crashes),
-		"known_findings_hit":    len(knownHits),
-		"index_range_complete":  complete,
-		"exhaustive_subspaces":  tot.Exhaustive,
-		"exhaustive":            false,
-		"real_code":             []string{"parser (lexer, goyacc tables, grammar actions)", "interp (Eval, Expand, ExecEnv)", "printer", "ast", "pattern"},
-		"stubbed":               []string{"source reader (SimReader/SimByteReader)", "output writer (SimWriter)", "goroutine scheduling choice (verifYield hooks + synctest quiescence)", "select tie in emit (forced from the tape)"},
-		"pinned":                []string{"environment (scrubbed)", "pid ($$ never generated)", "cwd (empty scratch dir)"},
+		"distinct_outcomes":      distinctOut,
+		"scheduler_steps":        tot.Steps,
+		"io_operations":          tot.IOOps,
+		"simulated_time_note":    "go.sh has no clocks or timers: simulated time is reported as scheduler steps and reader/writer operations",
+		"runs_per_hour":          int64(runsPerHour),
+		"seeds_per_hour":         int64(runsPerHour),
+		"fault_kinds_fired":      tot.Faults,
+		"probes":                 tot.Probes,
+		"probes_stuck_at_zero":   zeroProbes,
+		"policies":               tot.Policies,
+		"lanes":                  laneInfo,
+		"worker_deaths":          len(all.crashes),
+		"known_findings_hit":     len(knownHits),
+		"index_range_complete":   complete,
+		"exhaustive_subspaces":   tot.Exhaustive,
+		"exhaustive":             false,
+		"real_code":              []string{"parser (lexer, goyacc tables, grammar actions)", "interp (Eval, Expand, ExecEnv)", "printer", "ast", "pattern"},
+		"stubbed":                []string{"source reader (SimReader/SimByteReader)", "output writer (SimWriter)", "goroutine scheduling choice (verifYield hooks + synctest quiescence)", "select tie in emit (forced from the tape)"},
+		"pinned":                 []string{"environment (scrubbed)", "pid ($$ never generated)", "cwd (empty scratch dir)"},
 	}
 	ev.Assumptions = []string{
 		"go1.26.8 runtime and testing/synctest quiescence detection are correct",
